@@ -221,6 +221,36 @@ def check_matrix_def(ck, drv, n, modulo, mats, central):
         ck.correspondence_break("inverseMapMat: model and implementation differ", {"case": case, "model": m, "impl": imap})
 
 
+def check_shared_buffer(ck, case):
+    """Several generators created from ONE caller-owned int64 array (different moduli, inverses taken in between): each
+    generator must keep standing for the matrix it was created from, and its inverse must undo that matrix."""
+    n, M, mods, touch = case["n"], case["M"], case["mods"], case["touch_inv"]
+    A = np.array(M, dtype=np.int64).reshape(n, n)
+    gens = []
+    ck.case(["shared-buffer", n, M, mods, touch], True, sample={"op": "shared buffer", "n": n, "mods": mods})
+    ck.count("matrix:shared caller buffer")
+    try:
+        for m, t in zip(mods, touch):
+            g = MatrixGenerator.create(A, modulo=m)
+            if t:
+                _ = g.inv
+            gens.append(g)
+        invs = [g.inv for g in gens]
+    except (AssertionError, ValueError, np.linalg.LinAlgError) as ex:
+        ck.violation("C10/matrix/shared-buffer/error", f"creating / inverting generators from one int64 array raised {type(ex).__name__}: {ex}", {"case": case})
+        return
+    for m, g, gi in zip(mods, gens, invs):
+        B = m if m > 0 else 1 << 64
+        want = [v % B for v in M]
+        got = [int(x) % B for x in g.matrix.reshape(-1)]
+        Ir = [int(x) % B for x in gi.matrix.reshape(-1)]
+        eye = [int(r == c) for r in range(n) for c in range(n)]
+        prod = [sum(want[r * n + j] * Ir[j * n + c] for j in range(n)) % B for r in range(n) for c in range(n)]
+        if got != want or prod != eye:
+            ck.violation("C10/matrix/shared-buffer", "a generator created from a caller's array no longer stands for that matrix (or its inverse does not undo it) after the array was used for another generator", {"case": case, "modulo": m, "stored": got, "expected": want, "inverse_ok": prod == eye})
+            return
+
+
 def main():
     ck = Check("C10")
     rng = ck.rng
@@ -229,7 +259,9 @@ def main():
     if ck.replay:
         body = json.load(open(os.path.join(VERIF, ck.replay) if not os.path.isabs(ck.replay) else ck.replay))
         c = body["case"]
-        if "mats" in c:
+        if "mods" in c:
+            check_shared_buffer(ck, c)
+        elif "mats" in c:
             check_matrix_def(ck, drv, c["n"], c["modulo"], c["mats"], c.get("central"))
         elif "M" in c:
             check_matrix(ck, drv, c["n"], c["modulo"], c["M"])
@@ -286,6 +318,29 @@ def main():
                 # reduced representative has no integer inverse: outside the guaranteed domain; still check soundness
                 pass
         check_matrix(ck, drv, n, modulo, M)
+    # one caller-owned int64 array used for several generators (entries outside [0, m): negative, large)
+    for _ in range(40 if not ck.thorough else 1500):
+        if ck.enough():
+            break
+        n = rng.choice([2, 3, 3, 4])
+        # unitriangular with entries of both signs: its reduction mod every m has an integer inverse only when ... so use
+        # products of elementary matrices with entries in {-1, 0, 1} whose reduced representatives stay unimodular:
+        M = [int(r == c) for r in range(n) for c in range(n)]
+        for r in range(n):
+            for c in range(r + 1, n):
+                M[r * n + c] = rng.choice([-1, 1, 0, -1])
+        mods = rng.sample([0, 0, 5, 7, 12, 101, 1000], rng.randint(2, 3))
+        ok = True
+        for m in mods:
+            Mr = [v % m for v in M] if m > 0 else M
+            ex = exact_inverse(Mr, n)
+            ok = ok and ex is not None and all(v.denominator == 1 for v in ex)
+            # same domain as check_matrix: float inversion is claimed only for well-conditioned matrices
+            ok = ok and n * n * max(1, max(abs(v) for v in Mr)) * max(1, max(abs(int(v)) for v in ex)) ** 2 < 2**40
+        if not ok:
+            ck.count("matrix:shared buffer skipped (outside the guaranteed inversion domain)")
+            continue
+        ck.guard(check_shared_buffer, ck, {"n": n, "M": M, "mods": mods, "touch_inv": [rng.random() < 0.5 for _ in mods]})
     for _ in range(60 if not ck.thorough else 2000):
         n = rng.choice([2, 3])
         modulo = rng.choice([0, 0, 5])
